@@ -10,9 +10,12 @@ def table : List (String × String) := [("victim", "vpw"), ("mallory", "mpw"), (
 def lookupPw (u : List Char) : Option (List Char) :=
   (table.find? (fun e => e.1.toList = u)).map (·.2.toList)
 
-/-- the harness' table checker: `tempuser` → temporary error, unknown user → authorization error;
-digest token of (u, p) is `u:p` -/
-def cfg : Cfg :=
+/-- digest token of (user, password): `user:password` (stands for MD5(user:domain:password)) -/
+def md5tok (u pw : List Char) : List Char := u ++ ':' :: pw
+
+/-- the harness' own table checker (overrides checkPassword and getDigest itself): `tempuser` → temporary
+error, unknown user → authorization error -/
+def cfgOwn : Cfg :=
   { domain := "example.org".toList
     check := fun u p =>
       if u = "tempuser".toList then .temp
@@ -22,8 +25,17 @@ def cfg : Cfg :=
     digestOf := fun u =>
       if u = "tempuser".toList then .temp
       else match lookupPw u with
-        | some pw => .digest (u ++ ':' :: pw)
+        | some pw => .digest (md5tok u pw)
         | none => .nouser }
+
+/-- the harness' `getPassword`-only checker: checkPassword/getDigest are the library defaults -/
+def getPw (u : List Char) : PwRes :=
+  if u = "tempuser".toList then .temp
+  else match lookupPw u with
+    | some pw => .ok pw
+    | none => .nouser
+
+def cfgStock : Cfg := Cfg.ofGetPassword "example.org".toList getPw md5tok
 
 def str (l : List Char) : String := String.ofList l
 
@@ -32,7 +44,9 @@ def parsePayload (w : String) : Option Payload :=
   else if w = "m" then some .junk
   else match w.splitOn ":" with
     | ["c", u, p] => some (.creds u.toList p.toList)
-    | ["d", claimed, su, sp, q] => some (.dresp claimed.toList (su.toList ++ ':' :: sp.toList) (q = "a"))
+    | ["d", claimed, su, sp, q] => some (.dresp claimed.toList (md5tok su.toList sp.toList) (q = "a"))
+    -- a recorded response replayed verbatim: computed over a stale nonce, so it is computed from no digest at all
+    | ["r", claimed, _, _] => some (.dresp claimed.toList "!stale-nonce".toList true)
     | _ => none
 
 def optStr (w : String) : List Char := if w = "-" then [] else w.toList
@@ -120,18 +134,36 @@ def obs (s : Server) (outs : List Out) : String :=
 def victimLogin : List (Nat × Ev) :=
   [(0, .openStream "example.org".toList),
    (0, .auth false "PLAIN".toList (.creds "victim".toList "vpw".toList) false),
-   (0, .deliver 0),
+   (0, .deliver 0),   -- (with the stock checker this is the next event-loop turn)
    (0, .bind "v".toList),
    (0, .stanza { kind := .presence [], sender := [], to := [] })]
 
-def start : Server := (run cfg init victimLogin).1
+structure DS where
+  stock : Bool := false
+  s : Server
 
-def stepLine (s : Server) (line : String) : Server × String :=
+def cfgOf (stock : Bool) : Cfg := if stock then cfgStock else cfgOwn
+
+/-- with the stock checker every reply finishes on the next event-loop turn, i.e. before the next element -/
+def deliverAll (cfg : Cfg) : Nat → Server → List Out → Server × List Out
+  | 0, s, acc => (s, acc)
+  | n + 1, s, acc =>
+    if (s.conns 1).pending.isEmpty then (s, acc)
+    else let r := step cfg s (1, .deliver 0); deliverAll cfg n r.1 (acc ++ r.2)
+
+def startOf (stock : Bool) : DS := { stock := stock, s := (run (cfgOf stock) init victimLogin).1 }
+
+def stepLine (d : DS) (line : String) : DS × String :=
   match words line with
-  | ["reset"] => (start, "ok")
+  | ["reset"] => (startOf false, "ok")
+  | ["reset", "stock"] => (startOf true, "ok")
   | ws =>
     match parseEv ws with
-    | some ev => let r := step cfg s (1, ev); (r.1, obs r.1 r.2)
-    | none => (s, "bad-op")
+    | some ev =>
+      let cfg := cfgOf d.stock
+      let r := step cfg d.s (1, ev)
+      let r2 := if d.stock then deliverAll cfg 8 r.1 r.2 else r
+      ({ d with s := r2.1 }, obs r2.1 r2.2)
+    | none => (d, "bad-op")
 
-def main : IO Unit := Qx.Driver.run start stepLine
+def main : IO Unit := Qx.Driver.run (startOf false) stepLine
